@@ -354,8 +354,11 @@ class ModelCacheMixin:
             or e.hash() in (self._min_signed_exhausted if signed else self._min_exhausted)
         ):
             # we set allow_unconstrained to False because we expect all returned values for e are returned by Z3,
-            # instead of some arbitrarily assigned concrete values.
-            cached = self._get_solutions(e, extra_constraints=extra_constraints, allow_unconstrained=False)
+            # instead of some arbitrarily assigned concrete values. The exception is an eval-exhausted e: there the
+            # cached models (with defaults for variables Z3 left out) were established to yield every value of e.
+            cached = self._get_solutions(
+                e, extra_constraints=extra_constraints, allow_unconstrained=e.hash() in self._eval_exhausted
+            )
 
         if len(cached) > 0:
 
@@ -377,7 +380,9 @@ class ModelCacheMixin:
             e.hash() in self._eval_exhausted
             or e.hash() in (self._max_signed_exhausted if signed else self._max_exhausted)
         ):
-            cached = self._get_solutions(e, extra_constraints=extra_constraints, allow_unconstrained=False)
+            cached = self._get_solutions(
+                e, extra_constraints=extra_constraints, allow_unconstrained=e.hash() in self._eval_exhausted
+            )
 
         if len(cached) > 0:
 
